@@ -77,6 +77,25 @@ MuxServersLeak(doc, req, obs) ==
    /\ HasOverride(doc) /\ MuxAsPinned(doc, req, obs)
    /\ Gist(MuxObs(doc, req, FALSE, TRUE)) # Gist(CurMuxObs(doc, req))
 
+(* F-C09-9: gorillamux makeServers replaces a port variable by its default and installs a *)
+(* varsUpdater that writes name -> default into the map of path parameters AFTER the      *)
+(* match: a variable of the matched path template that has the port variable's name is    *)
+(* overwritten, so the returned parameters no longer reproduce the request path.  The     *)
+(* observation is the pinned model's, and the same route with the template's own value    *)
+(* (portClobbers off) satisfies the contract.                                             *)
+MuxPortClobbers(doc, req, obs, failed) ==
+   /\ obs.k = "route" /\ failed = {"route_does_not_reproduce_path"}
+   /\ MuxAsPinned(doc, req, obs)
+   /\ MuxObsP(doc, req, FALSE, TRUE, FALSE) # CurMuxObs(doc, req)
+   /\ Failed(doc, req, MuxObsP(doc, req, FALSE, TRUE, FALSE)) = {}
+
+(* F-C09-10: gorilla/mux refuses a route whose host template and path template share a    *)
+(* variable name ("duplicated route variable"), so gorillamux.NewRouter fails for a valid *)
+(* document in which a server's host variable is named like a path parameter of a path    *)
+(* offered under it.  The class is exactly the pinned model's prediction.                 *)
+BuildClass(doc, router, built) ==
+   IF router = "g" /\ built = "error" /\ ~CurMuxBuilds(doc) THEN "mux_newrouter_duplicate_variable" ELSE "none"
+
 (* the legacy router did what its model of the current code does (route or route error) *)
 LegacyAsModel(doc, req, obs) ==
    LET p == CurLegacyObs(doc, req) IN
@@ -122,5 +141,6 @@ Class(doc, req, router, obs, failed) ==
        ELSE LegacyClass(Flat(doc), req, obs))
    ELSE IF router = "g" /\ obs.k = "rerr" /\ MuxMethodShadow(doc, req, obs, failed) THEN "mux_method_mismatch_shadows_later_template"
    ELSE IF router = "g" /\ obs.k \in {"route", "rerr"} /\ MuxServersLeak(doc, req, obs) THEN "mux_path_servers_leak"
+   ELSE IF router = "g" /\ obs.k = "route" /\ MuxPortClobbers(doc, req, obs, failed) THEN "mux_port_variable_overwrites_path_parameter"
    ELSE "none"
 =============================================================================
